@@ -432,6 +432,13 @@ func init() {
 		}
 		for _, t := range schema.Types {
 			zero := typeCtors[t.ID]()
+			// the model's notion of the zero value (what &T{} holds; what a `mat` guard fills in) vs the real one
+			o.emit(fmt.Sprintf("zero %d", t.ID), "ok | "+readObj(zero).String(), fmt.Sprintf("zero:%d", t.ID), true)
+			if typeNewFns[t.ID] != nil {
+				if c := typeNewFns[t.ID](); readObj(c).String() != readObj(zero).String() {
+					o.stat("ctor-differs-from-zero") // not a violation of any property: only recorded
+				}
+			}
 			check("zero", readObj(zero), zero)
 			if typeNewFns[t.ID] != nil {
 				c := typeNewFns[t.ID]()
